@@ -129,15 +129,15 @@ EXTRA = {
     "C04": " MC_QMC.tla (exhaustive, with a Restart action: the run continues from its restart dictionary with a fresh calculator) and its replay into the real drivers; a quarter of the recorded runs start from a simulation rebuilt through to_dict / JSON / from_dict with a fresh calculator. Runs in two legs with a manual edit (positions, and cell in the cell-changing ensembles) between them; the user resets the remembered energy. A Hookean restraint in the canonical scenarios (the reported / remembered energy includes it, the calculator's results do not); species-dependent calculators and family gcmix.",
     "C05": " MC_QMC.tla (exhaustive) and its replay; scenario families include an identity swap in both orders inside one trial and runs that empty the system. Pre-selected particles of another size than the template (sizes of pending insertions in the specification's state). Moves that join, or replace an entry of, the move table after exchanges have been accepted stay aligned.",
     "C06": " The same seed is also run in fresh interpreters with other PYTHONHASHSEED values (the other process-wide source of arbitrariness) and must give the same tokens. The seed is also spelled as a numpy integer.",
-    "C07": " Tables include default_label 0 and one exchange move shared by a stand-alone and a composite entry; Restart.tla names the transient pre-selections that are not saved. The scalar settings Restart.tla lists as future-relevant are part of the per-step digest; one table declares an accessible volume. A table whose one trial exchanges and then displaces.",
+    "C07": " Tables include default_label 0 and one exchange move shared by a stand-alone and a composite entry; Restart.tla names the transient pre-selections that are not saved. The scalar settings Restart.tla lists as future-relevant are part of the per-step digest; one table declares an accessible volume. A table whose one trial exchanges and then displaces. The restart path itself (both logging modes, fresh or over an older, longer document) is read back after every step and must hold the observer's document.",
     "C08": " Registry.tla (insertion order, last registration wins, first name of a class, typed lookup) is replayed on the real registry. Readers that never built the objects (fresh interpreter: first import + owner sub-package only) rebuild every document by registered name; a time step assigned on the live integrator. Values that are another class's default must survive; the dictionary is a snapshot (editing the rebuilt simulation must not change it). A composite operation nested in a composite operation (Serial.tla).",
     "C11": " A scenario family empties the system so that composite displacement moves are called with no eligible particle (reported count must be zero). The composite type owed to a table entry is derived from its elements (Algebra.tla's Meaning). After a label violation the trace specification keeps the specified labels, so later moves are judged against them. Two deletions followed by a displacement in one trial with pre-selected targets; one displacement move object under two table entries.",
     "C12": " Each numeric run is followed by four runs of the same object started after the user shifted the system by hand (cold rounds). FixRot on nearly linear molecules in any orientation and one constraint object re-used after masses / geometry changed. A Hamiltonian move driven by hand after a user edit, with refused trajectories. FixCom on a cluster far from the origin moved in small steps.",
     "C13": " Every fifth instance uses fictitious sampling masses given to the driver through update_masses (per atom or per coordinate). A step after the calculator was swapped without moving an atom. Per-coordinate mass-scaling powers. The adaptive driver: gamma and displacement of a step belong to that step's delta.",
     "C14": " The reversibility / order layer includes a rotating rigid bond (FixBondLength). A trajectory started after the atoms were moved by hand since the last evaluation. FixRot on clusters of unequal masses. Hookean restraints in the order layer; the proposal after refused trajectories is the trajectory from the start configuration with momenta drawn in this trial, whose kinetic energy is the remembered one.",
     "C15": " Plans may contain a rebuild (to_dict -> from_dict between two calls) and drivers without a log file; a counter of requested steps makes 'exactly the requested number' an invariant; liveness (every plan completes) is checked under weak fairness in the thorough tier. A per-case watchdog turns a call that does not return into a violation; the default restart observer is attached next to logger and trajectory (one rewrite per scheduled call). irun generators created before they are iterated. DriverInd.tla: the same claims for unbounded call lengths / calls / rebuilds / intervals by an inductive invariant discharged with Apalache, tied to Driver.tla by a refinement check in TLC. One-shot (negative interval) default logger.",
-    "C16": " Files.tla also has a failing logger call (nothing written) and pre-existing file content in 'a' mode, both bound by recorded histories; LoggerFields.tla (field management: insertion order, replace in place, remove by pattern, the shipped stress columns under every mask, the convenience sets add_mc/md/opt_fields with their shared names) and Observers.tla (file ownership) are replayed on the real classes. User checkpoints through the restart observer after the moves of a step. A draining run (empty-box frames), resume from the step-0 restart file into a new log, observer calls that write nothing still count. HeaderFormat.tla (derivation of header cells from data-cell formats) is replayed on the real function, str.format and Logger.add_field. A Logger given another file writes there and only there; rebuilding onto the earlier run's restart path does not change the file before the first observer call.",
-    "C18": " The curve is also replayed with reference variances 1 and 2 (coefficients above 1, committees of c^2+1 members). Alternating histories (committee data appear, disappear, re-appear between updates). Committee members that disagree in sign, identical members and realistic energy offsets. Delta read after step() on atoms of different masses.",
+    "C16": " Files.tla also has a failing logger call (nothing written) and pre-existing file content in 'a' mode, both bound by recorded histories; LoggerFields.tla (field management: insertion order, replace in place, remove by pattern, the shipped stress columns under every mask, the convenience sets add_mc/md/opt_fields with their shared names) and Observers.tla (file ownership) are replayed on the real classes. User checkpoints through the restart observer after the moves of a step. A draining run (empty-box frames), resume from the step-0 restart file into a new log, observer calls that write nothing still count. HeaderFormat.tla (derivation of header cells from data-cell formats) is replayed on the real function, str.format and Logger.add_field. A Logger given another file writes there and only there; rebuilding onto the earlier run's restart path does not change the file before the first observer call. User handles with earlier content under driver mode 'w' keep their bytes.",
+    "C18": " The curve is also replayed with reference variances 1 and 2 (coefficients above 1, committees of c^2+1 members). Alternating histories (committee data appear, disappear, re-appear between updates). Committee members that disagree in sign, identical members and realistic energy offsets. Delta read after step() on atoms of different masses. The reference variance is re-assignable (SetRef action): histories that retune it between updates.",
     "C19": " The caller's default array is handed over as is after an earlier search; delete + re-insert is also exercised the way the library composes it (a rejected grand-canonical trial that deletes one particle and inserts another, both orders). Negative indices. One global cutoff distance (float, int) over periodic boxes.",
     "C20": " The cell-changing ensembles also hold a user-defined constant-volume cell move W; the strict user objects are falsy and log truth-value tests. A delete-and-insert trial (zero particle balance) must be announced; the same object is serialized twice at the end (every user component is asked each time). What a move is told by a notification stays its own; an entry replaced after its announcement is the one executed and judged.",
     "C09": " SchedInd.tla: the contract for unbounded trials per step and minimum counts by an inductive invariant discharged with Apalache, tied to Sched.tla by a refinement check in TLC. DefaultTable.tla (the table each driver builds from its default moves: order, names, exact weights 1/(N+1) and N/(N+1) in the constant-pressure drivers, trials per step) is built on the real drivers for every case. Intervals that do not divide each other (small tables over intervals 1..3, steps 0..3; random tables without an every-step move).",
